@@ -608,7 +608,7 @@ func (k *Key) UnmarshalCBOR(data []byte) error {
 	}
 	// The CBOR decoder strips the self-described CBOR tag from map keys: a
 	// label wrapped in it is not an int / tstr.
-	if ensureUntaggedHeaderLabels(data) != nil {
+	if ensureUntaggedHeaderLabels(data, nil) != nil {
 		return errors.New("invalid label type: tagged item")
 	}
 
